@@ -204,8 +204,10 @@ def run(ctx):
                 continue
             # the field initialisers may read `__default` (DefaultExpression::Inherit): the template must declare it
             uses_inits = any("initializers(" in c or "field::Initializer" in c for c in comps)
-            declares_default = any("fallback_decl(" in c for c in comps) or any(tk.kind == "ident" and tk.text == "__default" for tk in toks) or any(
-                tk.kind == "interp" and "__default" in " ".join(T.render(a)) for tk in toks for a in T.stream_alts(tk.src))
+            # `let __default` somewhere in what the template emits, wherever the piece is generated
+            deep = T.render(s, follow=True)
+            # (the name is Ident::new(DEFAULT_STRUCT_NAME): the declaration is recognised by `let <ident> : Self =`)
+            declares_default = any(deep[i] == "let" and ("__default" in deep[i + 1:i + 3] or deep[i + 1:i + 5] == ["⟨proc_macro2::Ident⟩", ":", "Self", "="]) for i in range(len(deep) - 1))
             if uses_inits:
                 pc = [sorted(d) for d in ctx.pc_strs(f, T.by_stream[s][0].blk)]
                 ctx.ob("C20.H.default-declared-before-use", f.key, "fn-body template with field initialisers", declares_default,
